@@ -22,7 +22,13 @@ count % k == 0); the crossing requirement in Cross.apply, sample_mismatch_crossi
 RandomGen.__are_constraints_violated exhibits the same four facts (window start, chunk = size x weight, expected
 count = combination weight x crossing weight x sustain, equality for full chunks / at-most for the trailing one);
 every site that converts a block trial index into a factor trial number for applies_to_trial divides by that
-factor's sustain count.
+factor's sustain count.  Further crossing facts: (F3 aligned lists) weights, encoded combinations and the chunks of
+state variables range over the same filtered combination list; (F5) the exclusion predicate -- a combination is excluded
+iff it holds an excluded simple level or matches an excluded derived level's combination on all of its factors, and is
+dropped as inconsistent iff a simple-window derived level in it is impossible for every choice of levels of its sources
+outside the combination -- and the trial count's __count_exclusions quantifies over absent sources the same way.  The two
+run-length encoders (AtLeastKInARow, ExactlyKInARow) emit, per path condition, exactly the recorded clause table (a window
+too short for a sublist admits the level only as a whole window of k trials, resp. not at all).
 """
 NOT_DECIDED = ("that agreeing expressions are the *right* expressions (C01/C04 clauses), candidate construction in "
                "UCSolutionEnumerator versus the Cross/Derivation encodings beyond the facts listed, solver behaviour.")
